@@ -79,3 +79,34 @@ def run(ctx, rep):
     mo = ctx.model.batch([(F_DEC, [q]) for q, _, _ in sample_model])
     for (q, code, val), m in zip(sample_model, mo):
         F.cmp_res(rep, "v2-decode-corrupted", {"packet": bytes(q).hex()}, (code, val), m)
+    # ---- at the level LAN.send sees a reply (LAN._read), on a V2 connection and inside an AUTHENTIC V3 wrapper: the altered V2
+    # packet is re-wrapped by the reference appliance under the session key; the outer SHA-256 then verifies, the inner MD5 must not
+    key = rbytes(rng, 32)
+    for n in ([0, 5, 16, 33] if not ctx.deep else [0, 1, 5, 15, 16, 17, 33, 64]):
+        frame = rbytes(rng, n)
+        code, pkt = F.v2_encode(rng.randrange(2 ** 48), frame)
+        alts = [("authentic", list(pkt))]
+        for pos in range(len(pkt)):
+            q = list(pkt); q[pos] ^= 1 << rng.randrange(8)
+            alts.append((f"bitflip@{pos}", q))
+        alts += [(f"cut@{k}", list(pkt[:k])) for k in range(0, len(pkt), 5)]
+        for kind, q in alts:
+            for ver in (2, 3):
+                if ver == 3:
+                    st, outs = ctx.model.one(54, [[3], key, [rng.randrange(4096)], q, rbytes(rng, 16)])
+                    wire = outs[0]
+                else:
+                    wire = q
+                if not wire:
+                    continue
+                c, v = F.lan_read(ver, key, [wire])
+                rep.case(("lanread", ver, tuple(q)), f"lan-read-v{ver}")
+                inp = {"connection": f"V{ver}", "frame": bytes(frame).hex(), "kind": kind, "v2_packet_as_received": bytes(q).hex(),
+                       "wire": bytes(wire).hex(), "session_key": bytes(key).hex() if ver == 3 else None}
+                if kind == "authentic":
+                    if c != 0 or v != frame:
+                        rep.fail("oracle", "authentic-packet-not-decoded:lan-read", inp, {"result": [c, str(v)[:80]]})
+                elif c == 0:
+                    rep.fail("oracle", "corrupted-packet-accepted:lan-read" + ("" if v == frame else "-as-different-frame"), inp, {"decoded": bytes(v).hex()})
+                elif c not in (10, 11) and not (ver == 2 and c == -1):
+                    rep.fail("oracle", f"corrupted-packet-raises:{c}:lan-read", inp, {"exception": str(v)[:80]})
